@@ -816,6 +816,13 @@ type responseWriter struct {
 // WriteHeader captures the status code
 func (rw *responseWriter) WriteHeader(statusCode int) {
 	rw.statusCode = statusCode
+	// The backend's headers are forwarded as they are: a nil value keeps net/http from
+	// adding a sniffed Content-Type to a response whose origin sent none
+	if statusCode >= 200 {
+		if _, ok := rw.Header()["Content-Type"]; !ok {
+			rw.Header()["Content-Type"] = nil
+		}
+	}
 	rw.ResponseWriter.WriteHeader(statusCode)
 }
 
